@@ -30,6 +30,8 @@ OPS = [
 OPS.insert(13, ("remove",))  # job targets only; part of the quick alphabet
 OPS.insert(14, ("job_clear",))
 OPS.insert(15, ("job_reset",))
+OPS.insert(16, ("recreate",))
+OPS.insert(17, ("refused",))  # whole assignment / item assignment of values signac refuses: must raise and change nothing  # job.remove(); job.init() through the same handle (also inside buffered blocks)
 DOC_OF = {"J1a": "J1", "J1b": "J1", "J2": "J2", "P1": "P", "P2": "P"}
 
 
@@ -52,8 +54,10 @@ def apply_plain(d, op):
         elif k == "reset":
             d.clear()
             d.update(json.loads(json.dumps(op[1])))
-        elif k in ("remove", "job_clear", "job_reset"):
+        elif k in ("remove", "job_clear", "job_reset", "recreate"):
             d.clear()
+        elif k == "refused":
+            return None, "Refused"
         elif k == "nested":
             d[op[1]][op[2]] = op[3]
         elif k == "nested2":
@@ -95,6 +99,19 @@ def apply_real(owner, op):
         if k == "job_reset":
             owner.reset()
             return None, None
+        if k == "recreate":
+            owner.remove()
+            owner.init()
+            return None, None
+        if k == "refused":
+            refused = 0
+            for attempt in (lambda: setattr(owner, "doc", {"a.b": 1}), lambda: setattr(owner, "document", 5),
+                            lambda: owner.doc.__setitem__("w", {"c.d": 1})):
+                try:
+                    attempt()
+                except Exception:  # noqa
+                    refused += 1
+            return None, ("Refused" if refused == 3 else None)
         doc = owner.doc
         if k == "set":
             doc[op[1]] = json.loads(json.dumps(op[2]))
@@ -144,7 +161,7 @@ class DocWorld:
         self.stale = set()  # handles whose job was removed through another handle (their use is undefined)
 
     def note(self, target, op):
-        if op[0] == "remove":
+        if op[0] in ("remove", "recreate"):
             for t, d in DOC_OF.items():
                 if d == DOC_OF[target] and t != target:
                     self.stale.add(t)
@@ -160,7 +177,7 @@ class DocWorld:
         mem = {}
         for t in _CFG["targets"]:
             o = self.owners[t]
-            d = o._document
+            d = getattr(o, "_document", None)
             mem[t] = None if d is None else canon.canon_json(_raw(d))
         return json.dumps({"model": {k: canon.canon_json(v) for k, v in self.model.items()},
                            "files": {k: (None if self.file_content(k) is None else canon.canon_json(self.file_content(k)))
@@ -341,7 +358,7 @@ def execute(hist):
             except Exception as e:  # noqa
                 bad("read-raises", f"fresh session: {type(e).__name__}: {e}")
         enabled = [[t, list(o)] for t in _CFG["targets"] if t not in w.stale for o in _CFG["ops"]
-                   if not (o[0] in ("remove", "job_clear", "job_reset") and DOC_OF[t] == "P")]
+                   if not (o[0] in ("remove", "job_clear", "job_reset", "recreate") and DOC_OF[t] == "P")]
     return {"key": key, "enabled": enabled, "viol": viol, "n": n, "cls": hist[-1][1][0] if hist else "init",
             "expected_failure": bool(hist) and apply_plain({}, hist[-1][1])[1] is not None}
 
@@ -411,7 +428,7 @@ def run(ctx):
     quick = ctx.quick
     _CFG["salt"] = ctx.seed
     _CFG["targets"] = ["J1a", "J1b", "P1"] if quick else ["J1a", "J1b", "J2", "P1", "P2"]
-    _CFG["ops"] = OPS[:17] + [("set", "x", None)] if quick else OPS
+    _CFG["ops"] = OPS[:19] + [("set", "x", None)] if quick else OPS
     _CFG["caps"] = [None, 30] if quick else [None, 0, 30, 200]
     depth = 3 if quick else 4 if len(_CFG["targets"]) <= 3 else 3
     # thorough: depth 4 on the small target set, depth 3 on the large one
@@ -423,7 +440,7 @@ def run(ctx):
     reps += [(h, list(_CFG["targets"]), "full-block") for h in st.nonreps]
     if not quick:
         _CFG["targets"] = ["J1a", "J1b", "P1"]
-        _CFG["ops"] = OPS[:17]
+        _CFG["ops"] = OPS[:18]
         st2 = engine_h.explore(ctx, _exec, max_depth=4, chunk=16, collect_all=True)
         engine_h.fill_report(report, st2)
         reps += [(h, list(_CFG["targets"]), "all" if len(h) <= 3 else "two-blocks") for h in st2.reps]
